@@ -251,6 +251,61 @@ func (L *layoutCtx) arraySegs(a *ssa.Alloc) [][]Seg {
 	return [][]Seg{out}
 }
 
+// inlineCall: the layouts of result #idx of a repo helper, over its returns (returns that hand back a nil
+// slice together with a non-nil error emit nothing and are left out).
+func (L *layoutCtx) inlineCall(x *ssa.Call, idx int) [][]Seg {
+	P := L.P
+	cal, ok := x.Call.Value.(*ssa.Function)
+	if !ok || cal.Blocks == nil || !P.isRepoPkg(pkgOf(cal)) {
+		return nil
+	}
+	var out [][]Seg
+	L.depth++
+	defer func() { L.depth-- }()
+	prefix := ""
+	if cal.Signature.Recv() != nil && len(x.Call.Args) > 0 {
+		if pth, ok := fieldPath(x.Call.Args[0]); ok {
+			prefix = pth + "."
+		}
+	}
+	for _, ret := range returnsOf(cal) {
+		if idx >= len(ret.Results) {
+			continue
+		}
+		if isNilConst(ret.Results[idx]) && isErrorReturn(ret) {
+			continue
+		}
+		for _, alt := range L.segs(ret.Results[idx]) {
+			for i := range alt {
+				if alt[i].Via == "" {
+					alt[i].Via = fname(cal)
+				}
+				if prefix != "" && alt[i].Name != "" && !strings.HasPrefix(alt[i].Name, "local:") && !strings.HasPrefix(alt[i].Name, "param:") {
+					parts := strings.Split(alt[i].Name, "+")
+					for j := range parts {
+						parts[j] = prefix + parts[j]
+					}
+					alt[i].Name = strings.Join(parts, "+")
+				}
+			}
+			out = append(out, alt)
+		}
+	}
+	return out
+}
+
+// isErrorReturn: the return hands back a definitely non-nil error.
+func isErrorReturn(ret *ssa.Return) bool {
+	for _, r := range ret.Results {
+		if types.Identical(r.Type(), types.Universe.Lookup("error").Type()) && !isNilConst(r) {
+			if compatible(r, "nil", false) == 1 {
+				return true
+			}
+		}
+	}
+	return false
+}
+
 func (L *layoutCtx) segs(v ssa.Value) [][]Seg {
 	P := L.P
 	if L.depth > 6 {
@@ -297,38 +352,18 @@ func (L *layoutCtx) segs(v ssa.Value) [][]Seg {
 			return one(Seg{Kind: "each", W: -1, Name: L.bufferSource(x)})
 		}
 		// repo helper returning bytes: inline its returned expression
-		if cal, ok := x.Call.Value.(*ssa.Function); ok && cal.Blocks != nil && P.isRepoPkg(pkgOf(cal)) {
-			var out [][]Seg
-			L.depth++
-			prefix := ""
-			if cal.Signature.Recv() != nil && len(x.Call.Args) > 0 {
-				if pth, ok := fieldPath(x.Call.Args[0]); ok {
-					prefix = pth + "."
-				}
-			}
-			for _, ret := range returnsOf(cal) {
-				for _, alt := range L.segs(ret.Results[0]) {
-					for i := range alt {
-						if alt[i].Via == "" {
-							alt[i].Via = fname(cal)
-						}
-						if prefix != "" && alt[i].Name != "" && !strings.HasPrefix(alt[i].Name, "local:") && !strings.HasPrefix(alt[i].Name, "param:") {
-							parts := strings.Split(alt[i].Name, "+")
-							for j := range parts {
-								parts[j] = prefix + parts[j]
-							}
-							alt[i].Name = strings.Join(parts, "+")
-						}
-					}
-					out = append(out, alt)
-				}
-			}
-			L.depth--
-			if len(out) > 0 {
-				return out
-			}
+		if out := L.inlineCall(x, 0); out != nil {
+			return out
 		}
 		return one(Seg{Kind: "unknown", W: -1, Expr: "call " + name})
+	case *ssa.Extract:
+		// `b, err := helper()`: the bytes result of a repo helper that also returns an error
+		if c, ok := x.Tuple.(*ssa.Call); ok {
+			if out := L.inlineCall(c, x.Index); out != nil {
+				return out
+			}
+			return one(Seg{Kind: "unknown", W: -1, Expr: "call " + calleeName(&c.Call)})
+		}
 	case *ssa.Phi:
 		if L.seen[x] {
 			return one(Seg{Kind: "each", W: -1, Name: "loop"})
@@ -420,10 +455,6 @@ func (L *layoutCtx) segs(v ssa.Value) [][]Seg {
 	case *ssa.Const:
 		if x.Value == nil {
 			return [][]Seg{{}}
-		}
-	case *ssa.Extract:
-		if c, ok := x.Tuple.(*ssa.Call); ok {
-			return one(Seg{Kind: "unknown", W: -1, Expr: "call " + calleeName(&c.Call)})
 		}
 	case *ssa.Parameter:
 		return one(Seg{Kind: "var", W: -1, Name: "param:" + x.Name()})
@@ -1102,6 +1133,10 @@ func (P *Prog) measuredBy(v ssa.Value) string {
 	if c, ok := val.(*ssa.Call); ok && calleeName(&c.Call) == "builtin.len" {
 		return P.lengthOrigin(c.Call.Args[0])
 	}
+	if _, isConst := val.(*ssa.Const); !isConst {
+		// a computed length (`size := len(data); if size > K { size = K }`): the same SSA value must size the data
+		return "int:" + val.Name()
+	}
 	return ""
 }
 
@@ -1112,6 +1147,11 @@ func (P *Prog) lengthOrigin(v ssa.Value) string {
 	if ms, ok := v.(*ssa.MakeSlice); ok {
 		if c, ok := stripConv(ms.Len).(*ssa.Call); ok && calleeName(&c.Call) == "builtin.len" {
 			return P.lengthOrigin(c.Call.Args[0])
+		}
+		if l := stripConv(ms.Len); l != nil {
+			if _, isConst := l.(*ssa.Const); !isConst {
+				return "int:" + l.Name()
+			}
 		}
 	}
 	return stripRecv(P.sym(v))
